@@ -1,0 +1,191 @@
+//! Verification hook H1: a recording stand-in for `tokio::sync::RwLock`. Compiled only with
+//! `--cfg saito_verif`; the normal build uses tokio's lock directly and never sees this module.
+//!
+//! Behaviour is tokio's (the lock inside is tokio's lock). In addition every acquisition is
+//! reported, with its source location and the locks the calling thread already holds, to a
+//! thread-local trace that a harness may switch on.
+
+use std::cell::RefCell;
+use std::future::Future;
+use std::ops::{Deref, DerefMut};
+use std::panic::Location;
+
+#[derive(Clone, Debug, PartialEq, Eq)]
+pub struct LockEvent {
+    pub file: &'static str,
+    pub line: u32,
+    /// documented rank of the lock (3 configs, 4 blockchain, 5 mempool, 6 peers, 7 wallet, 0 other)
+    pub rank: u8,
+    pub write: bool,
+    /// (rank, write) of the locks held by this thread at the time of the request
+    pub held: Vec<(u8, bool)>,
+}
+
+thread_local! {
+    static HELD: RefCell<Vec<(u64, u8, bool)>> = RefCell::new(Vec::new());
+    static TRACE: RefCell<Option<Vec<LockEvent>>> = RefCell::new(None);
+    static NEXT: RefCell<u64> = RefCell::new(1);
+}
+
+/// start (or restart) recording on this thread and forget what was held
+pub fn trace_start() {
+    HELD.with(|h| h.borrow_mut().clear());
+    TRACE.with(|t| *t.borrow_mut() = Some(Vec::new()));
+}
+
+/// stop recording and return what was recorded
+pub fn trace_take() -> Vec<LockEvent> {
+    HELD.with(|h| h.borrow_mut().clear());
+    TRACE.with(|t| t.borrow_mut().take().unwrap_or_default())
+}
+
+fn rank_of(type_name: &str) -> u8 {
+    let last = type_name.rsplit("::").next().unwrap_or(type_name);
+    match last {
+        "Blockchain" => 4,
+        "Mempool" => 5,
+        "PeerCollection" => 6,
+        "Wallet" => 7,
+        n if n.contains("Conf") || n.contains("Cfg") => 3,
+        _ => 0,
+    }
+}
+
+fn request(loc: &'static Location<'static>, rank: u8, write: bool) {
+    TRACE.with(|t| {
+        if let Some(v) = t.borrow_mut().as_mut() {
+            let held = HELD.with(|h| h.borrow().iter().map(|x| (x.1, x.2)).collect());
+            v.push(LockEvent {
+                file: loc.file(),
+                line: loc.line(),
+                rank,
+                write,
+                held,
+            });
+        }
+    });
+}
+
+fn acquired(rank: u8, write: bool) -> u64 {
+    let id = NEXT.with(|n| {
+        let mut n = n.borrow_mut();
+        *n += 1;
+        *n
+    });
+    HELD.with(|h| h.borrow_mut().push((id, rank, write)));
+    id
+}
+
+fn released(id: u64) {
+    HELD.with(|h| h.borrow_mut().retain(|x| x.0 != id));
+}
+
+pub struct RwLock<T: ?Sized> {
+    rank: u8,
+    inner: tokio::sync::RwLock<T>,
+}
+
+pub struct ReadGuard<'a, T: ?Sized> {
+    id: u64,
+    inner: tokio::sync::RwLockReadGuard<'a, T>,
+}
+
+pub struct WriteGuard<'a, T: ?Sized> {
+    id: u64,
+    inner: tokio::sync::RwLockWriteGuard<'a, T>,
+}
+
+impl<T> RwLock<T> {
+    pub fn new(value: T) -> RwLock<T> {
+        RwLock {
+            rank: rank_of(std::any::type_name::<T>()),
+            inner: tokio::sync::RwLock::new(value),
+        }
+    }
+}
+
+impl<T: ?Sized> RwLock<T> {
+    #[track_caller]
+    pub fn read(&self) -> impl Future<Output = ReadGuard<'_, T>> {
+        let loc = Location::caller();
+        async move {
+            request(loc, self.rank, false);
+            let inner = self.inner.read().await;
+            ReadGuard {
+                id: acquired(self.rank, false),
+                inner,
+            }
+        }
+    }
+
+    #[track_caller]
+    pub fn write(&self) -> impl Future<Output = WriteGuard<'_, T>> {
+        let loc = Location::caller();
+        async move {
+            request(loc, self.rank, true);
+            let inner = self.inner.write().await;
+            WriteGuard {
+                id: acquired(self.rank, true),
+                inner,
+            }
+        }
+    }
+
+    pub fn try_read(&self) -> Result<ReadGuard<'_, T>, tokio::sync::TryLockError> {
+        let inner = self.inner.try_read()?;
+        Ok(ReadGuard {
+            id: acquired(self.rank, false),
+            inner,
+        })
+    }
+
+    pub fn try_write(&self) -> Result<WriteGuard<'_, T>, tokio::sync::TryLockError> {
+        let inner = self.inner.try_write()?;
+        Ok(WriteGuard {
+            id: acquired(self.rank, true),
+            inner,
+        })
+    }
+
+    pub fn rank(&self) -> u8 {
+        self.rank
+    }
+}
+
+impl<T: ?Sized> Deref for ReadGuard<'_, T> {
+    type Target = T;
+    fn deref(&self) -> &T {
+        self.inner.deref()
+    }
+}
+
+impl<T: ?Sized> Deref for WriteGuard<'_, T> {
+    type Target = T;
+    fn deref(&self) -> &T {
+        self.inner.deref()
+    }
+}
+
+impl<T: ?Sized> DerefMut for WriteGuard<'_, T> {
+    fn deref_mut(&mut self) -> &mut T {
+        self.inner.deref_mut()
+    }
+}
+
+impl<T: ?Sized> Drop for ReadGuard<'_, T> {
+    fn drop(&mut self) {
+        released(self.id);
+    }
+}
+
+impl<T: ?Sized> Drop for WriteGuard<'_, T> {
+    fn drop(&mut self) {
+        released(self.id);
+    }
+}
+
+impl<T: ?Sized + std::fmt::Debug> std::fmt::Debug for RwLock<T> {
+    fn fmt(&self, f: &mut std::fmt::Formatter<'_>) -> std::fmt::Result {
+        self.inner.fmt(f)
+    }
+}
